@@ -293,13 +293,16 @@ class Check:
         (c, o, m, fm, fi, _), = self.evaluate([case])
         return bool(fi)
 
-    def minimise(self, case):
+    def minimise(self, case, budget_s=60):
         cur = case
         improved = True
         steps = 0
-        while improved and steps < 200:
+        t_end = time.time() + budget_s
+        while improved and steps < 200 and time.time() < t_end:
             improved = False
             for cand in self.shrink(cur):
+                if time.time() > t_end:
+                    break
                 steps += 1
                 try:
                     if self.fails(cand):
